@@ -20,7 +20,7 @@ def graphBlock (g : Graph) (b : Nat) : PyView.PyBlock :=
     nextGlobal := g.nextG b, prevGlobal := g.prevG b,
     isSubReturnPoint := (g.callsubOf b).isSome, callsubBlock := (g.callsubOf b).getD 0,
     isCallsubBlock := (g.retPointOf b).isSome, subReturnPoint := g.retPointOf b,
-    calleeRetsubBlocks := if g.calleeHasRetsub b then 1 else 0 }
+    calleeRetsubBlocks := if g.calleeHasRetsub b then 1 else 0, isLeaf := g.isLeaf b }
 
 theorem reachin_tie (A : Analysis D) (g : Graph) (univ : D) (bc : Nat → D) (pc : Nat → Nat → D) (cur : List (Nat × D))
     (b : Nat) (E : PyView.Env) (key : Key) :
